@@ -471,17 +471,44 @@ def formula_rules(rep, F, regs):
     s2 = rep.rule("C16.S2", "ALGEBRA",
                   "a constant stored under an equality guard (x == c) is the two-sided limit of the derivative's "
                   "closed form (exact Laurent series), or the binding reports an error there", floor=45)
+    v1 = rep.rule("C16.V1", "TABLE",
+                  "the value a binding returns is the GSL function it is registered as, applied to the arguments in "
+                  "their registered order (symbolic execution of the body; after the shared rng state for the random "
+                  "variates, before constant mode arguments)", floor=330)
     seen, uncovered, nb = set(), {}, 0
     for (name, f, kind, nargs, call) in regs:
         if f is None or f.cfg is None or f.id in seen or kind == 2:
             continue
         seen.add(f.id)
         try:
+            st_ = GS.SymExec(F, f).run_body()
+            V = st_.ret
+            if V is not None and V[0] == "prim":
+                a_ = list(V[2])
+                if a_ and a_[0] == ("glob", "rng"):
+                    a_ = a_[1:]
+                while a_ and a_[-1][0] == "c":
+                    a_.pop()
+                okv = V[1] == name and all(x == ("a", i) for i, x in enumerate(a_)) and (nargs is None or nargs < 0 or len(a_) == nargs)
+                v1.check(okv, "%s|value" % name, short_loc(f.loc),
+                         "%s returns %s(al->ra[0..%d])" % (name, V[1], len(a_) - 1),
+                         "%s is registered with %s argument(s) but returns %s applied to %s" % (
+                             name, nargs, V[1], [("al->ra[%d]" % x[1]) if x[0] == "a" else x[0] for x in V[2]]))
+            elif V is not None and V[0] not in ("err", "unset"):
+                v1.fail("%s|value" % name, short_loc(f.loc), "%s does not return a GSL function value directly" % name)
+        except GS.Unsupported as e:
+            uncovered["%s|value" % name] = "symbolic execution: %s" % e
+        except (ArithmeticError, ValueError, RecursionError, KeyError, IndexError, TypeError) as e:
+            uncovered["%s|value" % name] = "symbolic analysis failed: %r" % (e,)
+        try:
             r = GS.analyse_binding(F, f, nargs if nargs and nargs > 0 else None, GP.T, GP.canon)
         except GS.Unsupported as e:
             v_ = FuncView(f)
             if any(m in ("derivs", "hes") and v_.is_store(node) for (node, m, idx) in v_.accesses()):
                 uncovered[name] = "symbolic execution: %s" % e
+            continue
+        except (ArithmeticError, ValueError, RecursionError, KeyError, IndexError, TypeError) as e:
+            uncovered[name] = "symbolic analysis failed: %r" % (e,)
             continue
         if not r["stored"]:
             continue
